@@ -67,11 +67,25 @@ MACROS = {
     "my-cond2": {
         "sr": "(define-syntax my-cond2 (syntax-rules (else) ((_ (else e)) (list 'else-branch e)) ((_ (c e)) (if c (list 'test-branch e) 'no))))",
     },
+    "arith": {
+        "sr": "(define-syntax arith (syntax-rules (by) ((_ a by b) (* a b)) ((_ a op b) (op a b))))",
+    },
+    "with-lister": {
+        # a macro whose template defines a local macro: identifiers of the inner template are renamed twice
+        "sr": "(define-syntax with-lister (syntax-rules () ((_ name body) (let-syntax ((name (syntax-rules () ((_ x (... ...)) (list x (... ...)))))) body))))",
+    },
+    "for-range": {
+        # the macro's own temporaries share a parameter list with a user-named variable
+        "sr": "(define-syntax for-range (syntax-rules () ((_ (var from to) body ...) (let loop ((var from) (limit to)) (if (< var limit) (begin body ... (loop (+ var 1) limit)))))))",
+    },
+    "def-with-tmp": {
+        "sr": "(define-syntax def-with-tmp (syntax-rules () ((_ name val) (begin (define tmp val) (define (name) tmp)))))",
+    },
     "def-const-macro": {
         "sr": "(define-syntax def-const-macro (syntax-rules () ((_ name val) (define-syntax name (syntax-rules () ((_) val))))))\n(def-const-macro five 5)",
     },
 }
-TEMPLATE_NAMES = ["tmp", "loop", "i", "limit", "helper", "x"]
+TEMPLATE_NAMES = ["tmp", "loop", "i", "limit", "helper", "x", "by"]
 KEYWORDS = ["if", "let", "set!", "when", "cond", "else", "do", "lambda", "begin", "and", "or", "case", "unless", "quote", "define", "=>", "let*", "letrec"]
 PROCS = ["list", "+", ">=", "cons", "car", "not", "vector", "apply", "map", "*", "-", "<", "="]
 
@@ -114,6 +128,14 @@ SCENARIOS = [
      {"let", "let-syntax", "syntax-rules", "if", "list", "_", "a", "b", "c"}, lambda k: [k[0], 2, 3]),
     ("lambda-or", ["my-or"], "((lambda ({b0} {b1}) (my-or {b0} {b1})) #f {k1})", 2, {"lambda"}, lambda k: k[1]),
     ("namedlet", ["my-or"], "(let {b0} (({b1} {k0})) (if (< {b1} 3) ({b0} (+ {b1} 1)) (my-or #f {b1})))", 2, {"let", "if", "<", "+"}, lambda k: max(k[0], 3)),
+    # a locally bound variable spelled like a pattern literal must not match the literal
+    ("literal-bound", ["arith"], "(let (({b0} +)) (arith 2 {b0} {k0}))", 1, {"let", "+"}, lambda k: 2 + k[0]),
+    ("literal-free", ["arith"], "(let (({b0} {k0})) (arith {b0} by 3))", 1, {"let", "by"}, lambda k: k[0] * 3),
+    ("cond2c", ["my-cond2"], "(let (({b0} #f) ({b1} {k1})) (my-cond2 ({b0} {b1})))", 2, {"let"}, lambda k: "no"),
+    ("lister", ["with-lister"], "(let (({b0} {k0})) (with-lister mk (cons {b0} (mk 1 2))))", 1, {"let", "cons", "mk"}, lambda k: [k[0], 1, 2]),
+    ("for-range", ["for-range"], "(let (({b0} 0)) (for-range ({b1} 0 {k0}) (set! {b0} (+ {b0} {b1}))) {b0})", 2, {"let", "set!", "+"}, lambda k: sum(range(max(k[0], 0)))),
+    ("def-with-tmp", ["def-with-tmp"], "(let () (define {b0} {k0}) (def-with-tmp get 100) (list {b0} (get)))", 1, {"let", "define", "list", "get"}, lambda k: [k[0], 100]),
+    ("def-with-tmp2", ["def-with-tmp"], "(let () (def-with-tmp get 100) (define {b0} {k0}) (list {b0} (get)))", 1, {"let", "define", "list", "get"}, lambda k: [k[0], 100]),
     ("do-or", ["my-or", "my-list"], "(do (({b0} 0 (+ {b0} 1)) ({b1} '() (my-list {b0} {b1}))) ((= {b0} 2) (my-or #f {b1})))", 2, {"do", "+", "=", "quote"},
      lambda k: [1, [0, []]]),
 ]
